@@ -1356,7 +1356,7 @@ def create_user(expression: exp.Expression) -> exp.Expression:
     """
     # XXX: this is a placeholder. We need to implement the full CREATE USER syntax, but
     #      sqlglot doesnt yet support Create for snowflake.
-    if isinstance(expression, exp.Command) and expression.this == "CREATE":
+    if isinstance(expression, exp.Command) and str(expression.this).upper() == "CREATE":
         sub_exp = expression.expression.strip()
         if sub_exp.upper().startswith("USER"):
             _, name, *ignored = sub_exp.split(" ")
